@@ -64,7 +64,7 @@ for v in res['violations']:
     b = allb[v['behaviour']][: v['step'] + 1]
     again = replay([b], 'repro')
     if not [x for x in again['violations'] if x['signature'] == v['signature']]:
-        c.inconclusive('violation %s not reproduced on a second run' % v['signature'])
+        c.unreproduced('violation %s not reproduced on a second run' % v['signature'])
     c.report(v['signature'], v['detail'], {'behaviour': b, 'harness': 'stor/segapi'})
 
 # ---- 2b. design at the granularity of every atomic operation (incRef fast/slow path, DecRef with the pending
@@ -84,11 +84,11 @@ if not hd.ok:
 
 def stress(i, millis):
     tp = os.path.join(core.BUILD, 'out', 'c14-seg-%d-%d.ndjson' % (os.getpid(), i))
-    r = c.run_harness(binp, ['-mode', 'segstress', '-cfg', json.dumps(dict(trace=tp, millis=millis, segs=6))], timeout=600, env={'VERIF_SEED': str(c.seed * 100 + i)})
+    rr = c.run_harness(binp, ['-mode', 'segstress', '-cfg', json.dumps(dict(trace=tp, millis=millis, segs=6))], timeout=600, env={'VERIF_SEED': str(c.seed * 100 + i)})
     lines = open(tp).read().splitlines() if os.path.exists(tp) else []
     if os.path.exists(tp):
         os.remove(tp)
-    return r, lines
+    return rr, lines
 
 
 def trace_verdict(lines):
@@ -106,12 +106,12 @@ def trace_verdict(lines):
 runs, millis = (2, 2500) if c.quick else (10, 6000)
 straces, sevents, sstats, found = 0, 0, {}, {}
 for i in range(runs):
-    r, lines = stress(i, millis)
-    if r['inconclusive']:
-        c.inconclusive('; '.join(r['inconclusive'][:3]))
-    for k2, v2 in r['stats'].items():
+    sr, lines = stress(i, millis)
+    if sr['inconclusive']:
+        c.inconclusive('; '.join(sr['inconclusive'][:3]))
+    for k2, v2 in sr['stats'].items():
         sstats[k2] = sstats.get(k2, 0) + v2
-    for vv in r['violations']:
+    for vv in sr['violations']:
         found.setdefault(vv['signature'], (vv['detail'], lines[-60:]))
     if len(lines) < 200:
         c.inconclusive('segment stress run %d produced only %d events' % (i, len(lines)))
@@ -133,13 +133,13 @@ for i in range(runs):
 for sig, (detail, ctx) in found.items():
     again = False
     for j in range(6):
-        r, lines = stress(100 + j, millis)
+        sr, lines = stress(100 + j, millis)
         tv = trace_verdict(lines)
-        if any(v['signature'] == sig for v in r['violations']) or (tv and tv[0] == sig):
+        if any(v['signature'] == sig for v in sr['violations']) or (tv and tv[0] == sig):
             again = True
             break
     if not again:
-        c.inconclusive('concurrency violation %s seen once but not again in 6 further runs: %s' % (sig, detail))
+        c.unreproduced('concurrency violation %s seen once but not again in 6 further runs: %s' % (sig, detail))
     c.report(sig, detail, {'trace_tail': ctx, 'harness': 'stor/segstress'})
 c.log('concurrent runs: %d traces accepted, %d events, %s' % (straces, sevents, sstats))
 
